@@ -1,8 +1,10 @@
 mod drv_bool;
 mod drv_circuit;
 mod drv_conc;
+#[cfg(feature = "idx")]
 mod drv_dddmp;
 mod drv_hashtbl;
+#[cfg(feature = "idx")]
 mod drv_mv;
 mod drv_names;
 mod drv_oom;
@@ -47,7 +49,9 @@ fn main() {
         "hist" => by_kind!(kind, hist, &args),
         "reorder" => by_kind!(kind, reorder, &args),
         "replay" => by_kind!(kind, replay, &args),
+        #[cfg(feature = "idx")]
         "tdd" => drv_mv::tdd(&args),
+        #[cfg(feature = "idx")]
         "mtbdd" => drv_mv::mtbdd(&args),
         "pick" => match kind.as_str() {
             "bdd" => drv_pick::pick::<BDDFunction>(&args),
@@ -79,6 +83,7 @@ fn main() {
             "zbdd" => drv_names::run::<ZBDDFunction>(&args),
             k => panic!("harness: unknown kind {k}"),
         },
+        #[cfg(feature = "idx")]
         d if d.starts_with("dddmp") => drv_dddmp::run(d, &args),
         d if d.starts_with("hashtbl") => drv_hashtbl::run(d, &args),
         d if d.starts_with("circuit") || d.starts_with("parse") => drv_circuit::run(d, &args),
